@@ -34,8 +34,22 @@ Print Assumptions C15_limits_hard_le_clock.
 Check limits_divisor_pos.
 Check limits_legacy_divisor_zero.
 
+(** the same end to end from the numbers on the go line: uci.go multiplies the milliseconds by 10^6 in
+    int64 (wrapping); for EVERY clock value strconv.Atoi accepts (0 .. 2^63 - 1 ms) and every moves-to-go
+    the hard limit never exceeds the true time on the clock, and below 292 years nothing wraps *)
+Theorem C15_go_limits_hard_le_clock : forall wms bms moves c,
+  (0 <= wms <= 9223372036854775807)%Z -> (0 <= bms <= 9223372036854775807)%Z ->
+  let '(soft, hard) := go_limits wms bms moves c in
+  let remaining_ms := if (c =? 1)%Z then bms else wms in
+  (soft <= 1000000 * remaining_ms /\ hard <= 1000000 * remaining_ms)%Z.
+Proof. exact go_limits_hard_le_clock. Qed.
+Print Assumptions C15_go_limits_hard_le_clock.
+Check go_limits_exact.
+Check go_duration_wraps.
+Check go_limits_negative_clock.
+
 (** tie: Limits equals the values dumped from the running code on a grid of clocks / moves-to-go *)
-Definition C15_impl := (impl_limits, impl_tt_val).
+Definition C15_impl := (impl_limits, impl_go_limits, impl_tt_val).
 
 (** * Halting protocol (driver transition system, every interleaving) *)
 From Morlock.Model Require Import Driver.
